@@ -18,7 +18,7 @@
 (*          over the *core* rule domain (10 rules).                        *)
 (* Domain = "product" (a 1440-rule product domain, 304 packets) is used    *)
 (* with -simulate (MC_AclSim.cfg: stimulus for the implementation);        *)
-(* Domain = "wide" (a 720-rule product domain) in the thorough tier for    *)
+(* Domain = "wide" (a 360-shape product domain) in the thorough tier for   *)
 (* "fill" over 2 positions (MC_AclWide.cfg).                               *)
 EXTENDS Acl, TLC
 
@@ -93,7 +93,7 @@ CoreRules  == RulesOf(CoreParts)
 CoverRules == CoreRules \cup {R("deny", t[1], t[2], t[3], t[4], t[5], t[6], t[7]) : t \in ExtraParts}
 ProductOf(parts) == {R(a, t[1], t[2][1], t[2][2], t[3][1], t[3][2], t[4], t[5]) : a \in Acts, t \in parts}
 ProductRules == ProductOf(ProductParts)
-WideRules == ProductOf(WideParts)
+WideRules == {r \in ProductOf(WideParts) : r.action = "deny"}   \* (actions do not matter to "fill", see CoverRules)
 
 FreeRules == IF Domain = "product" THEN ProductRules ELSE CoreRules
 FillRules == IF Domain = "wide" THEN WideRules ELSE CoverRules
